@@ -146,6 +146,8 @@ macro_rules! dim_checks {
                 ensure_eq!(arr(list.iter().sum::<$V<S>>()), want3, "sum-refs", "Sum over &vectors");
                 ensure_eq!(arr(list.iter().cloned().sum::<$V<S>>()), want3, "sum-values", "Sum over vectors");
                 ensure_eq!(list[1..2].iter().sum::<$V<S>>(), cv, "sum-single", "Sum of one vector");
+                ensure_eq!(arr(list.iter().filter(|_| true).sum::<$V<S>>()), want3, "sum-unsized-refs", "Sum over a filtered iterator of &vectors");
+                ensure_eq!(arr(list.iter().cloned().filter(|_| true).sum::<$V<S>>()), want3, "sum-unsized-values", "Sum over a filtered iterator of vectors");
                 ensure_eq!(list[..0].iter().sum::<$V<S>>(), $V::<S>::zero(), "sum-empty", "empty Sum is zero()");
                 if d.chance(1, 12) {
                     // a long list (beyond any plausible block size): n copies of u interleaved with m copies of v
